@@ -53,10 +53,11 @@ Layouts == {"ss", "oss", "sos", "sso"}                   \* ensemble axes: s = s
 Sigmas == {"small", "anisotropic", "wider_than_the_scan"}
 (* stack: how many patterns are interpolated in one call (3; 17 x 19 patterns of 32 x 32; 5 x 5 patterns of 128 x 96) - every pattern of a large stack or dask block keeps its intensity too *)
 (* negative_member: one pattern of the stack has a negative total (a difference of two patterns) - its total is preserved as well *)
-Init == /\ \/ \E t \in DpTargets, g \in 1..4, z \in BOOLEAN, lz \in BOOLEAN, st \in {"small", "many_patterns", "large_patterns"}, ng \in BOOLEAN :
+(* faint_member: one pattern of the stack is 1e-10 times weaker than the others (a dark-field pattern next to bright ones): ITS total is preserved too *)
+Init == /\ \/ \E t \in DpTargets, g \in 1..4, z \in BOOLEAN, lz \in BOOLEAN, st \in {"small", "many_patterns", "large_patterns"}, ng \in BOOLEAN, fm \in BOOLEAN :
                 /\ (st # "small" => g = 1 /\ t \in {"uniform", "two_samplings", "gpts_smaller"})
-                /\ (ng => st = "small")
-                /\ c = [k |-> "dp", target |-> t, grid |-> g, zero_member |-> z, lazy |-> lz, stack |-> st, negative_member |-> ng]
+                /\ (ng => st = "small") /\ (fm => st = "small" /\ ~ng)
+                /\ c = [k |-> "dp", target |-> t, grid |-> g, zero_member |-> z, lazy |-> lz, stack |-> st, negative_member |-> ng, faint_member |-> fm]
            \/ \E t \in ImTargets, g \in 1..4, cx \in BOOLEAN, lz \in BOOLEAN : c = [k |-> "image", target |-> t, grid |-> g, complex |-> cx, lazy |-> lz]
            \/ \E l \in Layouts, s \in Sigmas, r \in 1..3, lz \in BOOLEAN : c = [k |-> "source", layout |-> l, sigma |-> s, limits |-> r, lazy |-> lz]
         /\ done = FALSE
